@@ -9,6 +9,61 @@
 #include <thread>
 #include <vector>
 
+#ifdef NANO_VERIF
+    #include <atomic>
+
+///
+/// \brief verification-only instrumentation: schedule points of the thread pool, reported to an optional callback
+///     (see /verif); a no-op unless a callback is installed.
+///
+namespace nano::verif
+{
+enum point : int
+{
+    enqueue_before_lock   = 1,
+    enqueue_pushed        = 2, ///< queue mutex held
+    enqueue_before_notify = 3,
+    enqueue_done          = 4,
+    map_before_lock       = 10,
+    map_pushed            = 11, ///< queue mutex held
+    map_before_notify     = 12,
+    map_before_block      = 13,
+    map_after_block       = 14,
+    map_serial            = 15,
+    worker_before_wait    = 20,
+    worker_woke           = 21, ///< queue mutex held
+    worker_popped         = 22, ///< queue mutex held
+    worker_before_run     = 23,
+    worker_after_run      = 24,
+    worker_saw_stop       = 25, ///< queue mutex held
+    worker_exit           = 26,
+    dtor_before_lock      = 30,
+    dtor_stop_set         = 31, ///< queue mutex held
+    dtor_before_notify    = 32,
+    dtor_before_join      = 33,
+    dtor_after_joins      = 34,
+    block_before_get      = 40,
+    block_after_get       = 41
+};
+
+using hook_t = void (*)(int point, const void* object);
+
+NANO_PUBLIC std::atomic<hook_t>& pool_hook();
+NANO_PUBLIC std::atomic<size_t>& pool_max_size();
+
+inline void at(const int point, const void* object)
+{
+    if (const auto hook = pool_hook().load(std::memory_order_relaxed); hook != nullptr)
+    {
+        hook(point, object);
+    }
+}
+} // namespace nano::verif
+    #define NANO_VERIF_POINT(id, object) ::nano::verif::at(::nano::verif::id, object)
+#else
+    #define NANO_VERIF_POINT(id, object) static_cast<void>(0)
+#endif
+
 namespace nano::parallel
 {
 using future_t = std::shared_future<void>;
@@ -33,11 +88,15 @@ public:
     {
         auto task   = task_t(std::forward<tfunction>(f));
         auto future = task.get_future();
+        NANO_VERIF_POINT(enqueue_before_lock, this);
         {
             const std::scoped_lock lock(m_mutex);
             m_tasks.emplace_back(std::move(task));
+            NANO_VERIF_POINT(enqueue_pushed, this);
         }
+        NANO_VERIF_POINT(enqueue_before_notify, this);
         m_condition.notify_one();
+        NANO_VERIF_POINT(enqueue_done, this);
         return future;
     }
 
@@ -181,6 +240,7 @@ public:
     {
         if (size() == 1 || elements <= 1)
         {
+            NANO_VERIF_POINT(map_serial, &m_queue);
             for (tsize index = 0; index < elements; ++index)
             {
                 op(index, 0U);
@@ -190,16 +250,21 @@ public:
         {
             section_t section;
             section.reserve(static_cast<size_t>(elements));
+            NANO_VERIF_POINT(map_before_lock, &m_queue);
             {
                 const std::scoped_lock lock(m_queue.m_mutex);
                 for (tsize index = 0; index < elements; ++index)
                 {
                     section.emplace_back(m_queue.enqueue_no_lock([op, index](const size_t tnum) { op(index, tnum); }));
                 }
+                NANO_VERIF_POINT(map_pushed, &m_queue);
             }
+            NANO_VERIF_POINT(map_before_notify, &m_queue);
             m_queue.m_condition.notify_all();
 
+            NANO_VERIF_POINT(map_before_block, &m_queue);
             section.block(raise);
+            NANO_VERIF_POINT(map_after_block, &m_queue);
         }
     }
 
@@ -217,6 +282,7 @@ public:
 
         if (size() == 1 || chunksize >= elements)
         {
+            NANO_VERIF_POINT(map_serial, &m_queue);
             for (tsize begin = 0; begin < elements; begin += chunksize)
             {
                 op(begin, std::min(begin + chunksize, elements), 0U);
@@ -226,6 +292,7 @@ public:
         {
             section_t section;
             section.reserve(static_cast<size_t>((elements + chunksize - 1) / chunksize));
+            NANO_VERIF_POINT(map_before_lock, &m_queue);
             {
                 const std::scoped_lock lock(m_queue.m_mutex);
                 for (tsize begin = 0; begin < elements; begin += chunksize)
@@ -234,10 +301,14 @@ public:
                     section.emplace_back(
                         m_queue.enqueue_no_lock([op, begin, end](const size_t tnum) { op(begin, end, tnum); }));
                 }
+                NANO_VERIF_POINT(map_pushed, &m_queue);
             }
+            NANO_VERIF_POINT(map_before_notify, &m_queue);
             m_queue.m_condition.notify_all();
 
+            NANO_VERIF_POINT(map_before_block, &m_queue);
             section.block(raise);
+            NANO_VERIF_POINT(map_after_block, &m_queue);
         }
     }
 
